@@ -24,6 +24,8 @@ type Verifier struct {
 	closeFields    map[string][]string
 	sweepDone      bool
 	curExec        *Exec
+	interfMemo     map[*ssa.Function]int
+	effMemo        map[*ssa.Function]map[string]bool
 }
 
 func NewVerifier(p *Program, c *Contracts) *Verifier {
@@ -198,7 +200,7 @@ func (v *Verifier) noSendChan(x *Exec, ap string) bool {
 		}
 	}
 	if k, ok := x.chanKeys[ap]; ok && k != "" {
-		if !v.sendFields[k] {
+		if _, inModule := v.P.TPkgs[strings.SplitN(k, ".", 2)[0]]; inModule && !v.sendFields[k] {
 			x.note("frame sweep: no send instruction on field " + k + " anywhere in the module (close-only channel)")
 			return true
 		}
@@ -263,7 +265,7 @@ func (v *Verifier) VerifyFunc(key string) (res *FuncResult) {
 	st := &State{Cells: map[*Cell]*Val{}, Heap: map[string]*Term{}, Held: map[string]*Held{}, FreshRefs: map[string]bool{}, Closures: map[string]*Closure{}, CallCount: map[string]int{}}
 	fr := &Frame{Fn: fn, Regs: map[ssa.Value]*Val{}, Blk: fn.Blocks[0], LoopSeen: map[*ssa.BasicBlock]bool{}}
 	st.Frames = []*Frame{fr}
-	x.Entry = &EntryInfo{Params: map[string]*Val{}, OldCells: map[*Cell]*Val{}, FreeCells: map[string]*Cell{}}
+	x.Entry = &EntryInfo{Params: map[string]*Val{}, OldCells: map[*Cell]*Val{}, FreeCells: map[string]*Cell{}, FreeVals: map[string]*Val{}}
 	for _, p := range fn.Params {
 		pv := freshVal(p.Type(), "p$"+p.Name())
 		st.assumeValAllocated(pv)
@@ -289,6 +291,7 @@ func (v *Verifier) VerifyFunc(key string) (res *FuncResult) {
 		if pv.Term != nil {
 			st.Assume(Neq(pv.Term, IntLit(0)))
 		}
+		x.Entry.FreeVals[fv.Name()] = pv
 		fr.FreeVars = append(fr.FreeVars, pv)
 	}
 	env := x.envAt(st, fr)
@@ -449,4 +452,167 @@ func (x *Exec) prescanFn(fn *ssa.Function, depth int, seen map[*ssa.Function]boo
 			}
 		}
 	}
+}
+
+// mayInterfere: does the callee (transitively, through statically bound calls) contain a point at which
+// other threads' effects become visible to it: lock, channel operation, wait, go, or a call to unknown code?
+func (v *Verifier) mayInterfere(fn *ssa.Function) bool {
+	if v.interfMemo == nil {
+		v.interfMemo = map[*ssa.Function]int{}
+	}
+	return v.mayInterfereRec(fn, 0)
+}
+
+func (v *Verifier) mayInterfereRec(fn *ssa.Function, depth int) bool {
+	if r, ok := v.interfMemo[fn]; ok {
+		return r != 2
+	}
+	if fn.Blocks == nil {
+		full := fn.String()
+		if strings.HasPrefix(full, "(*sync.") || strings.HasPrefix(full, "sync.") {
+			return true
+		}
+		return false // external: assumed effect-free unless modelled
+	}
+	if depth > 5 {
+		return true
+	}
+	v.interfMemo[fn] = 1 // in progress: assume yes for recursion
+	res := false
+	for _, b := range fn.Blocks {
+		for _, in := range b.Instrs {
+			switch i := in.(type) {
+			case *ssa.Send, *ssa.Select, *ssa.Go:
+				res = true
+			case *ssa.UnOp:
+				if i.Op == token.ARROW {
+					res = true
+				}
+			case *ssa.Call, *ssa.Defer:
+				var c *ssa.CallCommon
+				if ci, ok := in.(*ssa.Call); ok {
+					c = &ci.Call
+				} else {
+					c = &in.(*ssa.Defer).Call
+				}
+				if _, isB := c.Value.(*ssa.Builtin); isB {
+					continue
+				}
+				if c.IsInvoke() {
+					if !isLoggerType(c.Value.Type()) && !(c.Method.Name() == "Error" && typeName(c.Value.Type()) == "error") {
+						if _, ok := v.C.Assumed["iface:"+typeName(c.Value.Type())+"."+c.Method.Name()]; !ok {
+							res = true
+						}
+					}
+					continue
+				}
+				sc := c.StaticCallee()
+				if sc == nil {
+					res = true
+					continue
+				}
+				if _, isClosure := c.Value.(*ssa.MakeClosure); isClosure || sc.Parent() != nil {
+					if v.mayInterfereRec(sc, depth+1) {
+						res = true
+					}
+					continue
+				}
+				if v.mayInterfereRec(sc, depth+1) {
+					res = true
+				}
+			}
+		}
+	}
+	if res {
+		v.interfMemo[fn] = 3
+	} else {
+		v.interfMemo[fn] = 2
+	}
+	return res
+}
+
+// ghostEffects: the ghost call counters a function's body may advance (labels of unknown callees
+// declared in its own contract, counters of statically bound callees with contracts), transitively.
+func (v *Verifier) ghostEffects(fn *ssa.Function) map[string]bool {
+	if v.effMemo == nil {
+		v.effMemo = map[*ssa.Function]map[string]bool{}
+	}
+	if m, ok := v.effMemo[fn]; ok {
+		return m
+	}
+	out := map[string]bool{}
+	v.effMemo[fn] = out // recursion guard
+	if fn.Blocks == nil {
+		return out
+	}
+	fc := v.C.Funcs[v.P.FuncKey(fn)]
+	var scan func(f *ssa.Function, depth int)
+	scan = func(f *ssa.Function, depth int) {
+		for _, af := range f.AnonFuncs {
+			scan(af, depth+1)
+		}
+		for _, b := range f.Blocks {
+			for _, in := range b.Instrs {
+				var c *ssa.CallCommon
+				switch i := in.(type) {
+				case *ssa.Call:
+					c = &i.Call
+				case *ssa.Defer:
+					c = &i.Call
+				case *ssa.Go:
+					c = &i.Call
+				}
+				if c == nil {
+					continue
+				}
+				if _, isB := c.Value.(*ssa.Builtin); isB {
+					continue
+				}
+				sc := c.StaticCallee()
+				if sc == nil || c.IsInvoke() {
+					// unknown callee: logged only if the contract in force labels it
+					if fc != nil {
+						method := ""
+						if c.IsInvoke() {
+							method = c.Method.Name()
+						}
+						ap := accessPath(c.Value)
+						for _, cl := range fc.Of("callee") {
+							if (method != "" && (cl.Site == ap+"."+method || cl.Site == "*."+method)) || (method == "" && cl.Site == ap) {
+								out["calls$"+cl.Label] = true
+							}
+						}
+					}
+					continue
+				}
+				key := v.P.FuncKey(sc)
+				cfc, ok := v.C.Funcs[key]
+				name := ""
+				if ok {
+					name = sc.RelString(sc.Package().Pkg)
+				} else if cfc, ok = v.C.Assumed[sc.String()]; ok {
+					name = sc.String()
+				}
+				if ok && !(cfc.Has("inline") && sc.Blocks != nil) {
+					lbl := name
+					for _, cl := range cfc.Of("ghost") {
+						if strings.HasPrefix(cl.Text, "label ") {
+							lbl = strings.TrimSpace(strings.TrimPrefix(cl.Text, "label "))
+						}
+					}
+					out["ncalls$"+lbl] = true
+					for k := range v.ghostEffects(sc) {
+						out[k] = true
+					}
+					continue
+				}
+				if sc.Blocks != nil && depth < 5 {
+					// inlined: its sites are matched against the caller's contract
+					scan(sc, depth+1)
+				}
+			}
+		}
+	}
+	scan(fn, 0)
+	return out
 }
